@@ -419,22 +419,6 @@ func (ctx *RenderContext) GetMacro(name string) (interface{}, bool) {
 	return nil, false
 }
 
-// hasVariable reports whether name is bound in this context, in the globals or
-// in an enclosing context (a variable bound to nil is bound)
-func (ctx *RenderContext) hasVariable(name string) bool {
-	for c := ctx; c != nil; c = c.parent {
-		if _, ok := c.context[name]; ok {
-			return true
-		}
-		if c.env != nil {
-			if _, ok := c.env.globals[name]; ok {
-				return true
-			}
-		}
-	}
-	return false
-}
-
 // GetMacros returns the macros map
 func (ctx *RenderContext) GetMacros() map[string]Node {
 	return ctx.macros
@@ -713,15 +697,10 @@ func (ctx *RenderContext) EvaluateExpression(node Node) (interface{}, error) {
 		return n.value, nil
 
 	case *VariableNode:
-		// A name that is bound as a variable (a macro parameter, a set, a loop
-		// variable, a context entry) is that variable, also when a macro of the
-		// same name is visible; only an unbound name can stand for a macro
-		if !ctx.hasVariable(n.name) {
-			if macro, ok := ctx.GetMacro(n.name); ok {
-				return macro, nil
-			}
-		}
-
+		// Macros are not variables: they are reached by calling them (FunctionNode
+		// and the module forms look them up by name). A bare name is a variable,
+		// also when a macro of the same name is visible; handing out the macro node
+		// here made {{ name }} print the node's fields and addresses
 		return ctx.GetVariable(n.name)
 
 	case *GetAttrNode:
